@@ -25,6 +25,7 @@ type Gen struct {
 	// Depth guard for nested objects.
 	Classes map[string]int // shape-class counters: "<type>/<field>/<class>" -> hits
 	Small   bool           // no long lists / long texts (keeps checksum evaluation in TLC cheap)
+	Big     int            // > 0: every list gets about this many elements and numbers are 0xFF-heavy (long frames)
 }
 
 func NewGen(seed int64) *Gen {
@@ -63,6 +64,9 @@ var floatPatterns64 = [][]int{
 func (g *Gen) intBytes(t, fname string, f *Field) []int {
 	w := f.W
 	c := g.R.Intn(12)
+	if g.Big > 0 && g.R.Intn(3) > 0 {
+		c = 1 // all ones
+	}
 	if (f.Go == "f32" || f.Go == "f64") && c < 4 {
 		g.hit(t, fname, "fspecial")
 		if w == 4 {
@@ -178,6 +182,10 @@ func (g *Gen) dynText(t, fname string, mode Mode) []int {
 }
 
 func (g *Gen) listLen(t, fname string) int {
+	if g.Big > 0 {
+		g.hit(t, fname, "listhuge")
+		return g.Big/2 + g.R.Intn(g.Big)
+	}
 	switch c := g.R.Intn(10); {
 	case c == 0:
 		g.hit(t, fname, "list0")
@@ -273,7 +281,7 @@ func (g *Gen) value(t string, mode Mode, depth int) map[string]any {
 			}
 		case "objlist":
 			n := g.listLen(t, f.Name)
-			if n > 40 {
+			if n > 40 && g.Big == 0 {
 				n = 40
 			}
 			out := make([]any, n)
